@@ -536,7 +536,9 @@ func (c *cluster) Canon() []byte {
 		}
 	}
 	for _, q := range c.reads {
-		b.U(q.ctx.Low, q.ctx.High, q.at, q.commitAt, uint64(q.incarn)).Bool(q.answered).Bool(q.dropped)
+		// the incarnation counter itself is not state: only whether the request
+		// was issued to the incarnation that is running now is ever used
+		b.U(q.ctx.Low, q.ctx.High, q.at, q.commitAt).Bool(q.incarn == c.byID[q.at].incarnation).Bool(q.answered).Bool(q.dropped)
 	}
 	return b.B
 }
